@@ -267,6 +267,8 @@ struct ReaderState {
     executable_content_stack: Vec<(ExecutableContentId, &'static str)>,
     current_executable_content: ExecutableContentId,
     include_paths: Vec<PathBuf>,
+    /// Qualified name (with namespace prefix, if any) of the element that is currently started.
+    current_qname: String,
 }
 
 impl ReaderState {
@@ -286,6 +288,7 @@ impl ReaderState {
             file: Path::new("Buffer").to_path_buf(),
             content: "".to_string(),
             include_paths: Vec::new(),
+            current_qname: String::new(),
         }
     }
 
@@ -1399,7 +1402,12 @@ impl ReaderState {
 
     /// Reads the content until an end-tag is encountered.
     fn read_content(&mut self, tag: &str, reader: &mut XReader) -> String {
-        let start = BytesStart::new(tag.to_string());
+        // The end tag carries the same (possibly prefixed) name as the start tag.
+        let start = BytesStart::new(if self.current_qname.is_empty() {
+            tag.to_string()
+        } else {
+            self.current_qname.clone()
+        });
         let end = start.to_end().into_owned();
 
         let mut buf = Vec::new();
@@ -1702,6 +1710,7 @@ impl ReaderState {
         let n = e.local_name();
         let name = str::from_utf8(n.as_ref()).unwrap();
         self.push(name);
+        self.current_qname = String::from_utf8_lossy(e.name().as_ref()).to_string();
 
         #[cfg(feature = "Debug_Reader")]
         debug!("Start Element {}", name);
